@@ -94,7 +94,7 @@ St0 == [ws |-> [W |-> <<>>, pond |-> Z], fcAdj |-> <<>>, begin |-> [W |-> <<>>, 
                  finished |-> FALSE, nStats |-> 0],
         d |-> ZeroLedger, prev |-> [gddCum |-> Z, zroot |-> Z, hi |-> Z, hiadj |-> Z, b |-> Z, bns |-> Z],
         crop |-> [calendarType |-> 1], phash |-> [none |-> 0], seasonIrr |-> Z, irrSeason |-> -1,
-        stage |-> 0, ic0 |-> [none |-> 0], germ |-> FALSE, delayedCds |-> Z, delayedGdds |-> Z, irrCum |-> Z, exp |-> [none |-> 0], alive |-> TRUE, statIrr |-> Z, hasStat |-> FALSE]
+        stage |-> 0, ccadj |-> Z, ic0 |-> [none |-> 0], germ |-> FALSE, delayedCds |-> Z, delayedGdds |-> Z, irrCum |-> Z, exp |-> [none |-> 0], alive |-> TRUE, statIrr |-> Z, hasStat |-> FALSE]
 
 WsOf(s, e) == [W |-> IF Has(e, "W") THEN e.W ELSE s.ws.W, pond |-> IF Has(e, "pond") THEN e.pond ELSE s.ws.pond]
 
@@ -279,7 +279,7 @@ GrowthStageC(t, s, e) ==
 Chk_GrowthStage(t, s, e) == Tag("GrowthStage", GrowthStageC(t, s, e)) \cup Chk_Frame(t, s, e, "GrowthStage")
 \* ---- GrowthStage / Canopy (values carried to the day-end clauses)
 Upd_GrowthStage(t, s, e) == [s EXCEPT !.ws = WsOf(s, e), !.d = [s.d EXCEPT !.stageNow = e.stage]]
-Upd_Canopy(t, s, e) == [s EXCEPT !.ws = WsOf(s, e), !.d = [s.d EXCEPT !.dead = e.dead]]
+Upd_Canopy(t, s, e) == [s EXCEPT !.ws = WsOf(s, e), !.ccadj = e.ccadj, !.d = [s.d EXCEPT !.dead = e.dead]]
 
 \* ---- Evaporate / Transpire / GwInflow
 \* evaporation layer: potential rate bounded by the maximum evaporation coefficient, layer depth within its configured limits,
@@ -295,14 +295,34 @@ EvapLayerC(t, s, e) ==
 Chk_Evaporate(t, s, e) == Tag("Evaporate", EvapC(K(t), s.ws, WsOf(s, e), [es |-> e.es, espot |-> e.espot]))
                           \cup Tag("Evaporate.layer", EvapLayerC(t, s, e))
 TrArgs(t, s, e) == [tr |-> e.tr, trpot |-> e.trpot, irrnet |-> e.irrnet, gs |-> e.gs, net |-> e.method = 4]
-Chk_Transpire(t, s, e) == Tag("Transpire", TranspC(K(t), s.ws, WsOf(s, e), TrArgs(t, s, e)))
+\* potential transpiration never exceeds basal crop coefficient x adjusted canopy cover x reference ET (ageing, CO2, senescence and cold
+\* stress only reduce it)
+TrPotCapC(t, s, e) == IF Has(s.crop, "Kcb") /\ Finite(e.trpot) /\ Finite(s.ccadj) /\ ~IsNeg(s.ccadj)
+                      THEN [ potCap |-> LeTol(e.trpot, Mul(Mul(s.crop.Kcb, s.ccadj), s.d.ET0), Tol9) ]
+                      ELSE [ none |-> TRUE ]
+Chk_Transpire(t, s, e) == Tag("Transpire", TranspC(K(t), s.ws, WsOf(s, e), TrArgs(t, s, e))) \cup Tag("Transpire.pot", TrPotCapC(t, s, e))
 Upd_Transpire(t, s, e) == [s EXCEPT !.ws = WsOf(s, e), !.d = [s.d EXCEPT !.tr = e.tr]]
 FirstBelow(t, z) == LET S == {i \in 1..Cfg(t).N : Ge(Cfg(t).zmidProf[i], z)} IN IF S = {} THEN 0 ELSE MinOf(S)
 GwArgs(t, s, e) == [gwin |-> e.gwin, wtInSoil |-> e.wtInSoil, first |-> IF s.d.hasZ /\ ~TieAt(t, s.d.zgw) THEN FirstBelow(t, s.d.zgw) ELSE 0]
 Chk_GwInflow(t, s, e) == Tag("GwInflow", GwInC(K(t), s.ws, WsOf(s, e), GwArgs(t, s, e)))
 
-\* ---- RootZone
+\* ---- RootZone: the reported root-zone storage lies between the water of the compartments wholly inside the root zone and of
+\* all compartments it reaches into (each term is rounded to 0.01 mm by the implementation)
+RootZoneC(t, s, e) ==
+  LET n == e.nRoot slack == Milli(10 * e.nRoot) IN
+  [ upper |-> LeTol(e.wr, Add(SumRange(s.ws.W, 1, n), slack), Tol9),
+    lower |-> LeTol(SumRange(s.ws.W, 1, n - 1), Add(e.wr, slack), Tol9),
+    sign  |-> Ge(e.wr, Z) ]
+Chk_RootZone(t, s, e) == IF AllFinite(s.ws.W) /\ Finite(e.wr) THEN Tag("RootZone", RootZoneC(t, s, e)) ELSE {}
 Upd_RootZone(t, s, e) == [s EXCEPT !.d = [s.d EXCEPT !.nRoot = e.nRoot]]
+\* ---- Canopy: cover adjusted for micro-advection is the cubic 1.72 CC - CC^2 + 0.3 CC^3 of the canopy cover
+CanopyC(t, s, e) ==
+  IF ~(Finite(e.cc) /\ Finite(e.ccadj)) \/ IsNeg(e.cc) THEN [ finite |-> Finite(e.cc) /\ Finite(e.ccadj) ]
+  ELSE LET c2 == Mul(e.cc, e.cc) c3 == Mul(c2, e.cc)
+           poly == Sub(Add(Div100(Mul(e.cc, Units(172))), Div100(Mul(c3, Units(30)))), c2)
+       IN [ adjusted |-> Near(e.ccadj, poly, Tiny(100000)),
+            deadStays |-> s.clk.dead => e.dead ]
+Chk_Canopy(t, s, e) == Tag("Canopy", CanopyC(t, s, e)) \cup Chk_Frame(t, s, e, "Canopy")
 
 (***************************************************************************)
 (* DayEnd: the day's table rows as written, judged against the state the     *)
@@ -456,14 +476,14 @@ Chk(t, s, e) ==
     [] e.e = "CapRise"       -> Chk_CapRise(t, s, e)
     [] e.e = "Germinate"     -> Chk_Germinate(t, s, e)
     [] e.e = "GrowthStage"   -> Chk_GrowthStage(t, s, e)
-    [] e.e = "Canopy"        -> Chk_Frame(t, s, e, "Canopy")
+    [] e.e = "Canopy"        -> Chk_Canopy(t, s, e)
     [] e.e = "Evaporate"     -> Chk_Evaporate(t, s, e)
     [] e.e = "Transpire"     -> Chk_Transpire(t, s, e)
     [] e.e = "GwInflow"      -> Chk_GwInflow(t, s, e)
     [] e.e = "HIref"         -> {}
     [] e.e = "Biomass"       -> {}
     [] e.e = "HarvestIndex"  -> Chk_Frame(t, s, e, "HarvestIndex")
-    [] e.e = "RootZone"      -> {}
+    [] e.e = "RootZone"      -> Chk_RootZone(t, s, e)
     [] e.e = "DayEnd"        -> Chk_DayEnd(t, s, e)
     [] e.e = "Advance"       -> Chk_Advance(t, s, e)
     [] e.e = "Crash"         -> {<<"Crash", e.type, {"C16"}>>}
